@@ -282,7 +282,7 @@ int main(int argc, char **argv) {
         while (next < b) {
             fflush(NULL); vf_sh->where[0] = 0; long runs_before = G->runs;
             pid_t pid = fork();
-            if (pid == 0) { signal(SIGALRM, vf_alarm); vf_install_fault_handlers(); alarm(timeout * 20);
+            if (pid == 0) { signal(SIGALRM, vf_alarm); vf_install_fault_handlers(); vf_case_timer2(timeout * 20, timeout * 60);
                 if (!strcmp(PROP, "C18")) { /* C18 prefixes additionally start with each extra event (and with none) */ }
                 long i2 = 0; count_or_run(DEPTH_, 0, cur, 0, &i2, next, b, 1); fflush(NULL); _exit(0); }
             int st = 0; waitpid(pid, &st, 0); vf_last_child = pid;
